@@ -124,6 +124,20 @@ def run_status(rng):
                                  None if got is None else len(got), run=r))
         else:
             outs.append(held(sig=('status-pager', label, rc), counters={'status_runs': 1}, sets={'sub': ['status-with-pager:%s-%d' % (label, rc)]}))
+    # a command that writes more to stderr than a pipe holds before it writes its output: delta must not wait for ever
+    # (it used to read stdout to the end before looking at stderr), the output and every stderr line come through
+    if rng.random() < 0.5:
+        nflood = rng.choice([900, 2000])
+        r = run_plain(args + ['git', 'show'], b'', env={'VERIF_STUB_OUT': stub_out, 'VERIF_STUB_RC': '3', 'VERIF_STUB_ERR_FLOOD': str(nflood)},
+                      stdin_is_none=True, timeout=60)
+        c = crashmod.classify(r)
+        if c is not None:
+            outs.append(violated('c18:stderr-flood:' + c['signature'], 'delta git show with a command that writes %d lines to stderr first: %s' % (nflood, c['detail']), run=r))
+        elif r.rc != 3 or r.out != ref.out or r.err.count(b'\n') < nflood:
+            outs.append(violated('c18:stderr-flood:lost', 'delta git show with a command that writes %d lines to stderr: status %s (3 expected), %d stderr lines, output %s'
+                                 % (nflood, r.rc, r.err.count(b'\n'), 'complete' if r.out == ref.out else 'differs'), (3, nflood), (r.rc, r.err.count(b'\n')), run=r))
+        else:
+            outs.append(held(sig=('stderr-flood', nflood), counters={'status_runs': 1}, sets={'sub': ['status:stderr-flood']}))
     # delta git ... / delta rg ...
     for _ in range(2):
         rc = rng.choice([0, 1, 2, 3, 129, 255])
